@@ -30,7 +30,10 @@ RULE = (
     "whose fracture faces were left at their default. Oracle (exact, boolean): boundary faces = faces with "
     "exactly one neighbouring cell in cell_faces; a face mentioned once carries exactly its label, a boundary "
     "face never mentioned is Neumann, a face mentioned several times carries exactly one type, any other face "
-    "none; vectorial: the same in every component. Documented ValueErrors (interior face, wrong mask size, "
+    "none; vectorial: the same in every component. Copy histories: copy() (documented as a deep copy), copy of "
+    "the copy, then 0-4 re-assignments on any of the objects (documented attribute access, or set_bc where the "
+    "object has it): after every step every object carries the flags of its own history and exactly one type "
+    "per boundary face and component. Documented ValueErrors (interior face, wrong mask size, "
     "label count, unknown keyword) are expected for the invalid classes. Non-trivial = grid with >=1 boundary "
     "face and >=1 face assigned; distinct = hash of spec."
 )
@@ -53,7 +56,7 @@ REQUIRED = {
     "cls-scalar": 0.2, "cls-vector": 0.15, "form-index": 0.15, "form-mask": 0.15, "form-none": 0.03,
     "src-grid": 0.2, "src-mdg": 0.15, "has-fracture-faces": 0.08, "has-tip-faces": 0.05,
     "assigned-fracture-face": 0.03, "cond-str": 0.1, "cond-list": 0.1, "label-dir": 0.2, "label-neu": 0.1,
-    "label-rob": 0.1, "who-all": 0.05, "who-some": 0.1, "reassign": 0.03, "i2d": 0.015, "bad-interior": 0.01,
+    "label-rob": 0.1, "who-all": 0.05, "who-some": 0.1, "reassign": 0.03, "i2d": 0.015, "copy-history": 0.03, "bad-interior": 0.01,
     "dim1": 0.03, "dim2": 0.1, "dim3": 0.1, "kind-poly": 0.02, "kind-polyx": 0.02, "kind-tri": 0.02,
     "kind-tet": 0.02,
 }
@@ -96,6 +99,14 @@ def _bc(draw, src):
         b["bad"] = draw(st.sampled_from(["interior", "interior", "masksize", "ncond", "keyword"]))
         b["calls"] = b["calls"][:1]
         b["i2d"] = False
+    # copy history: number of copies in a chain (copy, copy of the copy) and re-assignments on any of the objects
+    b["copies"], b["hist"] = 0, []
+    if not b["bad"] and draw(st.sampled_from([False, True, False, False, False, False])):
+        b["copies"] = draw(st.sampled_from([1, 1, 2]))
+        for _ in range(draw(st.sampled_from([0, 1, 2, 3, 4]))):
+            b["hist"].append({"on": draw(st.integers(0, b["copies"])), "via": draw(st.sampled_from(["attr", "set_bc"])),
+                              "sel": draw(st.lists(st.integers(0, 999), min_size=1, max_size=4)),
+                              "label": draw(st.sampled_from(LABELS))})
     return b
 
 
@@ -210,7 +221,12 @@ def _rob_then_dir(spec):
     return False
 
 
-KNOWN = {"C39-vectorial-set-bc-dir-keeps-robin": _rob_then_dir}
+def _copy_then_write(spec):
+    """A boundary condition object is copied and one of the objects is re-assigned afterwards."""
+    return any(b.get("copies") and b.get("hist") and not b["bad"] for b in spec["bcs"])
+
+
+KNOWN = {"C39-vectorial-set-bc-dir-keeps-robin": _rob_then_dir, "C39-bc-copy-is-shallow": _copy_then_write}
 
 
 # ----------------------------------------------------------------------------- check
@@ -356,7 +372,70 @@ def _check_bc(pp, b, sds, labels):
             require_equal(a, exp, "internal-to-dirichlet",
                           f"{what}: is_{nm} after internal_to_dirichlet (fracture faces must be Dirichlet only, "
                           "other faces unchanged)")
+    if b.get("copies"):
+        _copy_history(b, obj, g, cls, B, rows, nf, what, labels)
     return B.size > 0 and len(mentions) > 0
+
+
+def _copy_history(b, obj, g, cls, B, rows, nf, what, labels):
+    """copy() (docstring: deep copy, all attributes copied), copy of the copy, then re-assignments on any of the
+    objects: every object must keep the state of its own history (reference: flags at copy time + own writes)."""
+    labels.append("copy-history")
+    objs = [obj]
+    for _ in range(b["copies"]):
+        objs.append(objs[-1].copy())
+    if b["copies"] > 1:
+        labels.append("copy-of-copy")
+
+    def flags(o):
+        return {nm: np.asarray(getattr(o, "is_" + nm)).reshape(rows, nf).copy() for nm in LABELS}
+
+    model = [flags(obj) for _ in objs]          # the main oracle has verified the original
+    loose = [np.zeros(nf, dtype=bool) for _ in objs]  # faces where only 'exactly one type' is demanded
+
+    def compare(step):
+        for i, o in enumerate(objs):
+            name = "original" if i == 0 else ("copy" if i == 1 else "copy of the copy")
+            require(o.num_faces == nf and np.array_equal(np.sort(np.asarray(o.bf)), B), "copy-attributes",
+                    f"{what}: {name}: num_faces / bf differ from the original")
+            got = flags(o)
+            for nm in LABELS:
+                strict = ~loose[i]
+                require(np.array_equal(got[nm][:, strict], model[i][nm][:, strict]), "copy-not-independent",
+                        f"{what}: after {step}, is_{nm} of the {name} is {got[nm][:, strict].astype(int).tolist()}, "
+                        f"its own history gives {model[i][nm][:, strict].astype(int).tolist()}")
+            cnt = sum(got[nm].astype(int) for nm in LABELS)
+            require(np.all(cnt[:, B] == 1) and np.all(np.delete(cnt, B, axis=1) == 0), "copy-partition",
+                    f"{what}: after {step}, the {name} does not carry exactly one type per boundary face and component")
+
+    compare("copy()")
+    for n, op in enumerate(b["hist"]):
+        if B.size == 0:
+            break
+        labels.append("copy-history-write")
+        i = op["on"]
+        o = objs[i]
+        faces = sorted({int(B[u % B.size]) for u in op["sel"]})
+        fa = np.array(faces, dtype=int)
+        lab = op["label"]
+        if op["via"] == "set_bc" and hasattr(o, "set_bc"):
+            labels.append("copy-write-set_bc")
+            o.set_bc(fa, lab)
+            if lab == "neu":  # 'neu' through set_bc leaves an earlier dir / rob in place: only the partition is demanded
+                loose[i][fa] = True
+                continue_model = False
+            else:
+                continue_model = True
+        else:
+            labels.append("copy-write-attr")
+            for nm in LABELS:  # documented attribute access
+                getattr(o, "is_" + nm)[..., fa] = nm == lab
+            continue_model = True
+        if continue_model:
+            for nm in LABELS:
+                model[i][nm][:, fa] = nm == lab
+            loose[i][fa] = False
+        compare(f"write #{n} ({lab!r} on faces {faces} of object {i} via {op['via']})")
 
 
 def check(spec):
